@@ -52,7 +52,8 @@ for kind in ('seeded', 'benign', 'regressions'):
             shutil.rmtree(old); shutil.rmtree(new)
             continue
         ev = f'{old}/desper/events.py'
-        open(ev, 'w').write(repair(open(ev).read()))
+        fixed_text = repair(open(ev).read())
+        open(ev, 'w').write(fixed_text)
         # diff of the whole package, repaired tree -> repaired tree + change
         sh('git init -q . && git add -A && git -c user.name=x -c user.email=x@x commit -qm base', new)
         sh(f'rsync -a --delete --exclude .git {old}/ {new}/')
@@ -64,7 +65,7 @@ for kind in ('seeded', 'benign', 'regressions'):
             open('/tmp/rebased.diff', 'w').write(diff)
             rc, out = sh('git apply /tmp/rebased.diff', new)
             ok = rc == 0
-            rc, out = sh('/venv/bin/python -m pytest -q -p no:cacheprovider 2>&1 | tail -1', new)
+            rc, out = sh('/venv/bin/python -m pytest -q -p no:cacheprovider 2>&1 | tail -1', new); open('/tmp/rb_last.log','w').write(sh('/venv/bin/python -m pytest -q -p no:cacheprovider 2>&1 | tail -30', new)[1]) if '111 passed' not in out else None
             res['suite'] = out.strip()
             ok = ok and '111 passed' in out
             demo = f'{base}/{name}/demo.py'
